@@ -73,6 +73,11 @@ func runC09History(c *Ctx, idx int) {
 	model := gen.NewModel(gcfg.HashSize(), gcfg.ExactLog)
 	keys := gen.FlatKeys(6)
 	opts := gen.TxnOpts{Keys: keys, MaxRefs: 3, Journal: true, DelP: 0.2, LogTombP: 0.1}
+	if idx%10 == 3 {
+		// few keys, many deletions, no logs: full compactions can leave an EMPTY list, so
+		// handles go stale through a list that shrank to nothing
+		opts = gen.TxnOpts{Keys: keys[:2], MaxRefs: 2, DelP: 0.7, NoLogs: true}
+	}
 	var maxUI uint64
 	id := 0
 	nops := 10 + rng.Intn(40)
@@ -85,6 +90,11 @@ func runC09History(c *Ctx, idx int) {
 		return b
 	}
 	for op := 0; op < nops; op++ {
+		// "every committed update index" = the indices present in the current stack: when
+		// a full compaction cancelled everything the list is empty and numbering restarts
+		if names, _ := stx.ListNames(dir); len(names) == 0 {
+			maxUI = 0
+		}
 		hi := rng.Intn(nh)
 		h := handles[hi]
 		stale := isStale(h)
@@ -92,6 +102,9 @@ func runC09History(c *Ctx, idx int) {
 		lbBefore := listBytes()
 		kinds := []string{"add", "add", "add", "newaddition", "compactall", "autocompact", "clean", "reopen", "add-big", "commit-noauto", "commit-noauto", "compactrange", "add-while-locked"}
 		kind := kinds[rng.Intn(len(kinds))]
+		if opts.NoLogs && !stale && rng.Chance(0.25) {
+			kind = "compactall"
+		}
 		desc := fmt.Sprintf("h%d(stale=%v) %s", hi, stale, kind)
 		r.Evaluations++
 		unchanged := func() bool {
